@@ -212,15 +212,11 @@ impl<'a> DisconnectTx<'a> {
     const FIXED_HDR: u8 = Self::PACKET_ID << 4;
 
     fn property_len(&self) -> VarSizeInt {
-        let session_expiry_interval_len = Some(&self.session_expiry_interval)
-            .map(|val| {
-                if *val == SessionExpiryInterval::default() {
-                    return 0;
-                }
-
-                val.byte_len()
-            })
-            .unwrap();
+        let session_expiry_interval_len = self
+            .session_expiry_interval
+            .as_ref()
+            .map(|val| val.byte_len())
+            .unwrap_or(0);
 
         let reason_string_len = self
             .reason_string
@@ -263,8 +259,8 @@ impl<'a> SizedPacket for DisconnectTx<'a> {
 pub(crate) struct DisconnectTx<'a> {
     #[builder(default)]
     pub(crate) reason: DisconnectReason,
-    #[builder(default)]
-    pub(crate) session_expiry_interval: SessionExpiryInterval,
+    #[builder(setter(strip_option), default)]
+    pub(crate) session_expiry_interval: Option<SessionExpiryInterval>,
     #[builder(setter(strip_option), default)]
     pub(crate) reason_string: Option<ReasonStringRef<'a>>,
     #[builder(setter(custom), default)]
@@ -294,8 +290,8 @@ impl<'a> Encode for DisconnectTx<'a> {
         encoder.encode(self.reason);
         encoder.encode(self.property_len());
 
-        if self.session_expiry_interval != SessionExpiryInterval::default() {
-            encoder.encode(self.session_expiry_interval);
+        if let Some(val) = self.session_expiry_interval {
+            encoder.encode(val);
         }
 
         if let Some(val) = self.reason_string {
